@@ -26,6 +26,8 @@ Next ==
      \/ \E k \in Keys : env[k] \notin ({A!Undef, A!NotSet} \cup FnVals) /\ UNCHANGED env /\ Add([op |-> "evalx", k |-> k, obs |-> [t |-> "expr", v |-> env[k]]])
      \/ \E k \in Keys : env[k] # A!NotSet /\ UNCHANGED env /\ Add([op |-> "isundef", k |-> k, obs |-> V(IF env[k] = A!Undef THEN 1 ELSE 0)])
      \/ \E v \in CallVals, o \in {"call1", "proxy1"} : UNCHANGED env /\ Add([op |-> o, v |-> v, obs |-> V(v)])
+     \* a remote NILAD: the list form with no parameters f(,:seven) and the proxy q0() - the server's seven::{7} returns value 1
+     \/ \E o \in {"call0", "proxy0"} : CallVals # {} /\ UNCHANGED env /\ Add([op |-> o, obs |-> V(1)])
      \/ \E a \in PairA, b \in PairB, o \in {"call2", "proxy2"} : UNCHANGED env /\ Add([op |-> o, a |-> a, b |-> b, obs |-> [t |-> "pair", a |-> a, b |-> b]])
 Emit == Len(hist) = MaxOps => PrintT(ToJson(hist))
 =============================================================================
